@@ -226,36 +226,47 @@ def parse_triggers(text, parameters=None):
 
 
 def hazards(info):
-    """Which of the (mutually exclusive) hazard classes a line falls in;
-    computed from the model only."""
+    """Input classes of a line worth counting (computed from the model)."""
     hz = set()
     if info['two_leading_dropped']:
         hz.add('two-leading-dropped')
     if info['dropped_in_mixed']:
         hz.add('mixed')
-    if info['lone_first_vanished']:
-        hz.add('lone-first')
+    if info['first_expr_vanished']:
+        hz.add('head-emptied')
     return hz
 
 
+LONE_FIRST = 'C34:offset-out-of-range:lone-first-node-drops-whole-line'
+
+
 def classify_parse(line, params, info, hazard, got, want=None):
-    """Mechanism key for a graph-level disagreement (no values inside)."""
-    hz = hazards(info)
-    leak = got is not None and '32768' in repr(got)
-    if hazard == 'numeric-string':
-        return 'C34:fixed-value:numeric-looking-string-coerced-to-int'
-    if hz == {'two-leading-dropped'} and (leak or got is None):
-        return ('C34:offset-out-of-range:two-leading-dropped-nodes:'
-                'removal-marker-leaks-into-graph')
-    if leak:
+    """Mechanism key for a graph-level disagreement (no values inside).
+
+    The known mechanism ("a head expression emptied entirely by removing
+    out-of-range nodes drops the rest of the line for that combination") is
+    recognised exactly: the observed trigger map must equal the parse of the
+    model's lines minus the lines of those combinations.  Anything else gets
+    a key from the line's features, whatever else is present in the line.
+    """
+    if got is not None and info['first_expr_vanished']:
+        try:
+            if got == parse_triggers('\n'.join(info['lines_head_kept'])):
+                return LONE_FIRST
+        except Exception:
+            pass
+    if got is not None and '32768' in repr(got):
         return 'C34:offset-out-of-range:removal-marker-leaks-into-graph'
-    if hz == {'mixed'}:
+    if info['dropped_in_mixed']:
         return 'C34:offset-out-of-range:mixed-and-or-loses-operator'
-    if hz == {'lone-first'} and (
-            got is None or want is None or not set(got) - set(want)):
-        return 'C34:offset-out-of-range:lone-first-node-drops-whole-line'
+    if info['two_leading_dropped']:
+        return 'C34:offset-out-of-range:several-leading-dropped-nodes'
+    if info['first_expr_vanished']:
+        return 'C34:offset-out-of-range:head-emptied-other'
     if info['dropped_nodes']:
         return 'C34:offset-out-of-range:other'
+    if hazard == 'numeric-string':
+        return 'C34:fixed-value:numeric-looking-string-coerced-to-int'
     feat = line_features(line, params)
     if feat['fixed']:
         return 'C34:graph-parse:fixed'
@@ -286,17 +297,16 @@ def check_graph_parse(ctx, rng, params, hazard=None):
         return
     text = M.render_line(line, rng)
     model_lines, info = M.expand_line_dropping(line, params)
+    kept = info.pop('lines_head_kept')
     desc = {'parameters': pdesc(params), 'graph': text,
             'model_lines': model_lines[:12]}
+    info = dict(info, lines_head_kept=kept)
     hz = hazards(info)
-    if len(hz) > 1:
-        # keep mechanism classes separable: one hazard class per line
-        ctx.count('discard_parse_several_hazard_classes')
-        return
+    for h in hz:
+        ctx.count('parse_class_' + h)
+    gen_kind = hazard or 'none'
     if hazard in ('mixed', 'lone-first'):
-        hazard = next(iter(hz), None)
-    elif hazard is None and hz:
-        hazard = next(iter(hz))
+        hazard = None
     try:
         want = parse_triggers('\n'.join(model_lines))
     except GraphParseError:
@@ -305,7 +315,7 @@ def check_graph_parse(ctx, rng, params, hazard=None):
     ctx.evaluated(('parse', repr(desc['parameters']), text),
                   nontrivial=info['combos'] >= 2 or feat['fixed'])
     ctx.count('parse_cases')
-    ctx.count('parse_hazard_' + (hazard or 'none'))
+    ctx.count('parse_gen_' + gen_kind)
     ctx.count('parse_nodes_dropped', info['dropped_nodes'])
     ctx.count('parse_first_expr_vanished', info['first_expr_vanished'])
     ctx.count('parse_dropped_in_mixed', info['dropped_in_mixed'])
@@ -354,7 +364,9 @@ def check_graph_parse(ctx, rng, params, hazard=None):
                            for k in differ[:4]}})
     elif info['dropped_nodes'] and not ctx.counters.get('sampled_parse'):
         ctx.count('sampled_parse')
-        ctx.sample({**desc, 'tasks': sorted(want)[:10], 'info': info},
+        ctx.sample({**desc, 'tasks': sorted(want)[:10],
+                    'info': {k: v for k, v in info.items()
+                             if k != 'lines_head_kept'}},
                    force=True)
 
 
